@@ -9,11 +9,11 @@ SCALE="${1:-0.1}"
 B="$(dirname "$(rustup +nightly which rustc)")/../lib/rustlib/x86_64-unknown-linux-gnu/bin"
 [ -x "$B/llvm-cov" ] || { echo "llvm-tools of the nightly toolchain not found"; exit 3; }
 T="${COV_SCRATCH:-/tmp/flatsim-cov}"; rm -rf "$T"; mkdir -p "$T"
-( cd flatsim && RUSTFLAGS="-C instrument-coverage" CARGO_TARGET_DIR="$T/target" cargo +nightly build --release --offline >"$T/build.log" 2>&1 ) || { tail -20 "$T/build.log"; exit 2; }
+( cd flatsim && LLVM_PROFILE_FILE="$T/build-%p.profraw" RUSTFLAGS="-C instrument-coverage" CARGO_TARGET_DIR="$T/target" cargo +nightly build --release --offline >"$T/build.log" 2>&1 ) || { tail -20 "$T/build.log"; exit 2; }
 for p in C06 C07 C08 C09 C10; do
   LLVM_PROFILE_FILE="$T/$p-%p.profraw" FLATSIM_VERIF_DIR="$T/vdir" "$T/target/release/flatsim" run --property $p --tier quick --scale "$SCALE" --workers 8 2>&1 | tail -1 | cut -c1-110
 done
-"$B/llvm-profdata" merge -sparse "$T"/*.profraw -o "$T/all.profdata"
+rm -f "$T"/build-*.profraw; "$B/llvm-profdata" merge -sparse "$T"/*.profraw -o "$T/all.profdata"
 "$B/llvm-cov" report "$T/target/release/flatsim" -instr-profile="$T/all.profdata" --ignore-filename-regex='(registry|rustc|rustup|verif)' 2>/dev/null | awk '{printf "%-34s %8s %8s %9s %6s %6s %9s\n", $1, $2, $3, $4, $5, $6, $7}' | sed 's#^repo/##' | tee reach/coverage.txt
 if [ "${COV_SHOW:-}" != "" ]; then "$B/llvm-cov" show "$T/target/release/flatsim" -instr-profile="$T/all.profdata" "/repo/$COV_SHOW" 2>/dev/null | grep -E "^\s+[0-9]+\|\s+0\|"; fi
 rm -rf "$T"
